@@ -85,6 +85,7 @@ func (t *Txn) Commit() error {
 			Version:   int64(commitTs),
 		})
 	}
+	verifhook.At("cm.apply.pre", commitTs)
 	t.db.rawset(entries...)
 
 	orc.doneCommit(commitTs)
